@@ -24,7 +24,13 @@ CHECK_G = "ugcheck"
 RUN_G_VO = "theories/Graph/NodesRunGU.vo"
 LEN = 64
 QNAN = 0x7FC00000
-WRAP_NAMES = {1: "Box", 2: "&mut", 3: "BoxedNode::new", 4: "BoxedNodeSend::new", 5: "dyn FnMut", 6: "dyn Fn", 7: "fn pointer"}
+WRAP_NAMES = {1: "Box", 2: "&mut", 3: "BoxedNode::new", 4: "BoxedNodeSend::new", 5: "dyn FnMut", 6: "dyn Fn", 7: "fn pointer",
+              8: "BoxedNode::into (Box<dyn Node> taken out again)", 9: "BoxedNodeSend::into (Box<dyn Node + Send> taken out again)",
+              10: "BoxedNode: node put in through DerefMut, called through DerefMut, Deref checked",
+              11: "BoxedNodeSend: node put in through DerefMut, called through DerefMut, Deref checked"}
+NWRAP = len(WRAP_NAMES)
+BOP_NAMES = {0: "keep", 1: "resize(n, Buffer::SILENT)", 2: "take+restore", 3: "resize_with(n, Buffer::default)",
+             4: "compare before/after (Buffer::eq)"}
 
 # ---------------------------------------------------------------------------
 # values
@@ -235,7 +241,7 @@ def correspond(binpath, items, tag):
 
 def rand_wrappers(r, maxlen=3):
     n = r.choice([0, 1, 1, 1, 2, 2, 3][:maxlen + 4])
-    return [r.range(1, 7) for _ in range(n)]
+    return [r.range(1, NWRAP) for _ in range(n)]
 
 
 def rand_ring(r, ln, flavour="any"):
@@ -349,9 +355,90 @@ def rand_case(r, kind, tier):
             if k == 0:
                 c[0] = 2
             elif k <= 2:
-                c[0], c[1] = 1, r.choice([0, 0, 1, 2, 3, 4, 5])
+                c[0], c[1] = r.choice([1, 3]), r.choice([0, 0, 1, 2, 3, 4, 5])
+            elif k == 3:
+                c[0] = 4
+    # Buffer::eq on (before, after) of one call, also in single-call cases (the initial content against the result)
+    if r.chance(1, 10):
+        c = calls[r.below(ncalls)]
+        if c[0] == 0:
+            c[0] = 4
     wrappers = rand_wrappers(r)
     return dict(kind=kind, wrappers=wrappers, spec=spec, out0=out0, shape=shape, ops=calls)
+
+
+EQ_VARIANTS = ["same", "same_nan", "first", "last", "middle", "ulp", "zero_sign", "zero_sign_and_one", "nan_vs_number", "all"]
+
+
+def eq_pair(r, variant):
+    """two buffers (bit patterns) whose `==` outcome is decided by one designed feature: identical (equal unless a NaN
+    is inside), one sample changed (first / last / a middle position; by one ulp; all of them), only the sign of a zero
+    flipped (equal although the bits differ), a NaN against a number"""
+    a = rand_buf(r, "any")
+    a = [0x3F800000 + i if ((v & 0x7F800000) == 0x7F800000 and (v & 0x7FFFFF)) else v for i, v in enumerate(a)]   # no NaN yet
+    b = list(a)
+    pos = {"first": 0, "last": LEN - 1}.get(variant, r.below(LEN))
+    if variant == "same_nan":
+        a[pos] = b[pos] = QNAN
+    elif variant in ("first", "last", "middle"):
+        b[pos] = a[pos] ^ (1 << r.below(31))
+        if (b[pos] & 0x7F800000) == 0x7F800000 and (b[pos] & 0x7FFFFF):
+            b[pos] = QNAN
+    elif variant == "ulp":
+        b[pos] = a[pos] ^ 1
+        if (b[pos] & 0x7F800000) == 0x7F800000 and (b[pos] & 0x7FFFFF):
+            b[pos] = QNAN
+    elif variant in ("zero_sign", "zero_sign_and_one"):
+        for q in {pos, r.below(LEN)}:
+            a[q] = 0x80000000 * r.below(2)
+            b[q] = a[q] ^ 0x80000000
+        if variant == "zero_sign_and_one":
+            q = r.below(LEN)
+            a[q], b[q] = 0x3F800000, 0x3F800001
+    elif variant == "nan_vs_number":
+        b[pos] = QNAN
+    elif variant == "all":
+        b = [fb(float(i + 1)) for i in range(LEN)]
+        a = [fb(float(i + 2)) for i in range(LEN)]
+    return a, b
+
+
+def eq_case(r, i):
+    """Buffer::eq on designed pairs: a routing node (Pass; now and then a one-input Sum, which turns -0.0 into +0.0 and
+    keeps everything else, or a Delay of exactly one buffer length) writes A in one call and B in the next; the second
+    call is an op-4 call, so buffer j before the call (A_j) is compared with buffer j after it (B_j)."""
+    nb = r.choice([1, 1, 2, 3])
+    pairs = [eq_pair(r, EQ_VARIANTS[(i + j) % len(EQ_VARIANTS)]) for j in range(nb)]
+    node = r.choice(["pass", "pass", "pass", "sum", "delay"])
+    A, B = [p[0] for p in pairs], [p[1] for p in pairs]
+    surplus = r.chance(1, 4)
+    out0 = [rand_buf(r, "any") for _ in range(nb + (1 if surplus else 0))]
+    if node == "delay":
+        # ring of one buffer length: call k emits the input of call k - 1
+        spec = ("delay", r.below(3), [(0, rand_buf(r, "any")) for _ in range(nb)])
+        calls = [[0, 0, [A]], [0, 0, [B]], [4, 0, [A]]] + ([[4, 0, [A]]] if r.chance(1, 2) else [])
+    else:
+        spec = (node,)
+        calls = [[4 if r.chance(1, 3) else 0, 0, [A]], [4, 0, [B]]] + ([[4, 0, [B]]] if r.chance(1, 2) else [])
+    return dict(kind="eq", wrappers=rand_wrappers(r), spec=spec, out0=out0, shape=[nb], ops=calls)
+
+
+def default_case(r, i):
+    """Buffer::default through `resize_with`: a node whose buffer list grows (from nothing, from a few buffers) by
+    default-made buffers, shrinks and grows again; a Pass with fewer input buffers than outputs leaves the new buffers
+    as they were made, so their content is what is compared"""
+    nin = r.choice([0, 1, 1, 2])
+    shape = [r.range(0, 2) for _ in range(nin)]
+    node = r.choice(["pass", "pass", "sumb", "delay"])
+    spec = (node,) if node != "delay" else ("delay", r.below(3), [rand_ring(r, r.choice([1, 3, 64, 100])) for _ in range(r.range(0, 2))])
+    flavour = "sum" if node == "sumb" else "any"
+    out0 = [rand_buf(r, flavour) for _ in range(r.choice([0, 0, 1, 2]))]
+    ncalls = r.range(2, 4)
+    calls = []
+    for c in range(ncalls):
+        op = [3, r.choice([1, 2, 3, 4, 5])] if c == 0 or r.chance(1, 2) else r.choice([[3, 0], [1, r.range(0, 4)], [4, 0], [0, 0]])
+        calls.append(op + [[[rand_buf(r, flavour) for _ in range(nbf)] for nbf in shape]])
+    return dict(kind="default", wrappers=rand_wrappers(r), spec=spec, out0=out0, shape=shape, ops=calls)
 
 
 def sig_zero_case(r, pattern):
@@ -380,13 +467,17 @@ def gen_cases(rng, tier):
     items = []
     # every wrapper code once around every base node kind, and the unwrapped concrete types
     for kind in ("sum", "sumb", "pass", "delay", "sig", "gpass", "gstate", "gsum"):
-        for w in [[]] + [[c] for c in range(1, 8)]:
+        for w in [[]] + [[c] for c in range(1, NWRAP + 1)]:
             r = rng.fork(f"wrap:{kind}:{w}")
             c = rand_case(r, kind, tier)
             c["wrappers"] = w
             items.append(build(c))
     for i in range(64 if tier == "quick" else 400):
         items.append(build(sig_zero_case(rng.fork(f"sigzero{i}"), SIG_ZERO_PATTERNS[i % len(SIG_ZERO_PATTERNS)])))
+    for i in range(100 if tier == "quick" else 600):
+        items.append(build(eq_case(rng.fork(f"eq{i}"), i)))
+    for i in range(40 if tier == "quick" else 240):
+        items.append(build(default_case(rng.fork(f"default{i}"), i)))
     for kind, n in mix.items():
         for i in range(n):
             items.append(build(rand_case(rng.fork(f"{kind}{i}"), kind, tier)))
@@ -522,7 +613,7 @@ def cgraph_case(r, shape, use_float, tier):
     calls = [[0, 0, [[rand_buf(r, flavour) for _ in range(nbf)] for nbf in shape_in]] for _ in range(ncalls)]
     if ncalls >= 2 and r.chance(1, 5):
         c = calls[-1]
-        c[0], c[1] = r.choice([(2, 0), (1, r.range(0, 3))])
+        c[0], c[1] = r.choice([(2, 0), (1, r.range(0, 3)), (3, r.range(0, 3)), (4, 0)])
     return dict(kind="cg:" + shape + (":f32" if use_float else ""), wrappers=rand_wrappers(r, 2) if r.chance(1, 2) else [],
                 spec=spec, out0=out0, shape=shape_in, ops=calls)
 
@@ -629,7 +720,8 @@ def main(rep, tier, seed):
 def finish(rep, info, items, outl, fbinfo, extra, bad=()):
     th = info.get("theorems", [])
     hist = {"node": {}, "wrapper": {}, "inputs": {}, "buffers_per_input": {}, "outputs": {}, "calls": {}, "delay_ring_len": {},
-            "signal_channels": {}, "buffer_list_ops": {}, "inner_graph_shape": {}, "inner_graph_container": {}}
+            "signal_channels": {}, "buffer_list_ops": {}, "inner_graph_shape": {}, "inner_graph_container": {},
+            "buffer_eq_outcomes": {}, "buffer_eq_designed_pairs": {}}
 
     def bump(h, k):
         hist[h][str(k)] = hist[h].get(str(k), 0) + 1
@@ -648,10 +740,10 @@ def finish(rep, info, items, outl, fbinfo, extra, bad=()):
         bump("outputs", len(it["out0"]))
         bump("calls", len(it["ops"]))
         for c in it["ops"]:
-            bump("buffer_list_ops", {0: "keep", 1: "resize", 2: "take+restore"}[c[0]])
+            bump("buffer_list_ops", BOP_NAMES[c[0]])
         if buffer_ops(it):
             bump("buffer_list_ops", "cases_with_a_change")
-        if any(c[0] == 2 or (c[0] == 1 and c[1] == 0) for c in it["ops"]) or not it["out0"]:
+        if any(c[0] == 2 or (c[0] in (1, 3) and c[1] == 0) for c in it["ops"]) or not it["out0"]:
             bump("buffer_list_ops", "cases_with_a_zero_buffer_call")
         s = it["spec"]
         if s[0] == "cgraph":
@@ -666,6 +758,12 @@ def finish(rep, info, items, outl, fbinfo, extra, bad=()):
             bump("signal_channels", s[1])
         if o.split(";")[-1].startswith("8"):
             panics += 1
+        for q in o.split(";"):
+            if q.startswith("21"):
+                for e in q.split()[1:]:
+                    bump("buffer_eq_outcomes", "equal" if e == "1" else "different")
+        if it["kind"] == "eq":
+            bump("buffer_eq_designed_pairs", "cases")
     nontriv = len({it["line"] for it in items if nontrivial(it)}) if outl else 0
     nfloat = sum(1 for it in items if spec_float(it["spec"])) if outl else 0
     dist = dict(hist, float_cases=nfloat, expect_panic_cases=panics, floatbase=fbinfo, **extra)
